@@ -143,7 +143,14 @@ fn cmd_sys(kv: &HashMap<String, String>) -> i32 {
             for f in files {
                 if f.extension().map(|e| e == "script").unwrap_or(false) {
                     let txt = std::fs::read_to_string(&f).unwrap();
-                    scenarios.push(scen::Scenario { ops: sys::script_from_text(&txt), label: format!("corpus {}", f.display()) });
+                    // `# watchdog <seconds>` in a corpus script: its own time limit (histories kept because an
+                    // operation never returns)
+                    let wd = txt.lines().find_map(|l| l.strip_prefix("# watchdog ")).and_then(|x| x.trim().parse::<u64>().ok());
+                    let label = match wd {
+                        Some(w) => format!("corpus {} watchdog={}", f.display(), w),
+                        None => format!("corpus {}", f.display()),
+                    };
+                    scenarios.push(scen::Scenario { ops: sys::script_from_text(&txt), label });
                 }
             }
         }
@@ -172,7 +179,8 @@ fn cmd_sys(kv: &HashMap<String, String>) -> i32 {
             if i >= sc.len() {
                 break;
             }
-            let (res, st) = run_script_watchdog("sys", sc[i].ops.clone(), mask, 120);
+            let limit = sc[i].label.split("watchdog=").nth(1).and_then(|x| x.trim().parse::<u64>().ok()).unwrap_or(120);
+            let (res, st) = run_script_watchdog("sys", sc[i].ops.clone(), mask, limit);
             q.lock().unwrap().1.push((i, res, st));
         }));
     }
@@ -208,8 +216,19 @@ fn cmd_sys(kv: &HashMap<String, String>) -> i32 {
             let mut txt = format!("# property {} kind {} at op {}\n# {}\n# scenario: {}\n", prop, m.kind, m.op_index, m.detail.replace('\n', " "), scenarios[*i].label);
             txt += &sys::script_to_text(&small);
             std::fs::write(&path, txt).unwrap();
+            // a violation on a corpus history carries the history's name, so that a listed known finding
+            // is exactly that history and nothing else
+            let sig = match scenarios[*i].label.strip_prefix("corpus ") {
+                Some(rest) => {
+                    let file = rest.split(' ').next().unwrap_or("");
+                    let base = std::path::Path::new(file).file_stem().map(|x| x.to_string_lossy().to_string()).unwrap_or_default();
+                    format!("{}@{}", m.kind, base)
+                }
+                None => m.kind.to_string(),
+            };
             violations.push(J::obj(vec![
                 ("replay", J::s(path)),
+                ("sig", J::s(sig)),
                 ("kind", J::s(m.kind)),
                 ("detail", J::s(m.detail.clone())),
                 ("ops", J::Int(small.len() as i64)),
